@@ -213,8 +213,23 @@ impl<L: Lit> Renumber<L> {
 
         for latch in &aig.latches {
             self.last_code += 2;
-            self.lit_map
-                .insert(latch.state, L::from_code(self.last_code));
+            // The map already contains the constant and all inputs (and earlier latches), so this
+            // also detects latches that redefine one of those.
+            if self
+                .lit_map
+                .insert(latch.state, L::from_code(self.last_code))
+                .is_some()
+            {
+                return Err(AigStructureError::LitAlreadyDefined { lit: latch.state });
+            }
+        }
+
+        // `lit_defs` only knows about inputs and and-gates, so and-gates redefining a latch have
+        // to be detected here.
+        for and in &aig.and_gates {
+            if self.lit_map.contains_key(and.output) {
+                return Err(AigStructureError::LitAlreadyDefined { lit: and.output });
+            }
         }
 
         if !self.config.trim {
